@@ -1499,6 +1499,8 @@ def int_method(i, fr, st, pc, a, t, fn, r, name=None, tyname=None):
         res, c = (w_add if name.endswith("add") else w_sub)(x, a[1])
         return _ret(i, st, pc, Agg("tuple", None, 0, (res, W(1, bits=[c]))))
     if name in ("checked_add", "checked_sub", "saturating_add", "saturating_sub", "checked_mul", "wrapping_mul", "saturating_mul", "pow", "checked_pow", "wrapping_neg", "abs_diff", "min", "max", "rem_euclid", "div_euclid", "checked_div", "checked_rem", "next_power_of_two", "is_power_of_two", "ilog2", "leading_zeros", "trailing_ones", "leading_ones", "count_zeros", "rotate_left", "rotate_right", "swap_bytes", "reverse_bits"):
+        if not conc and name == "wrapping_neg":
+            return _ret(i, st, pc, w_sub(W(w, val=0, signed=x.signed), x)[0])
         if not conc and name == "wrapping_mul" and len(a) == 2 and isinstance(a[1], W) and (x.val is not None or a[1].val is not None):
             # multiplication by a constant: shift-and-add over the set bits of the constant (exact bit functions)
             sym, k = (x, a[1].val) if a[1].val is not None else (a[1], x.val)
@@ -2236,6 +2238,19 @@ def slice_chunks(exact):
 
 def seq_lt(op):
     def f(i, fr, st, pc, a, t, fn, r):
+        x0, y0 = a[0], a[1]
+        for _ in range(2):
+            if isinstance(x0, Ptr) and x0.sl is None:
+                x0 = i.read_ptr(st, x0)
+            if isinstance(y0, Ptr) and y0.sl is None:
+                y0 = i.read_ptr(st, y0)
+        if isinstance(x0, Agg) and isinstance(y0, Agg) and x0.kind == "adt" and x0.key == y0.key and _local_trait_fn(i, "std::cmp::Ord", "cmp", x0.key) is not None:
+            # a local type with its own (derived) order: compare with it, one path per outcome
+            res, other = _compare(i, fr, st, pc, x0, y0, t)
+            outs = list(other)
+            for s2, p2, c in res:
+                outs.append(Outcome("return", s2, p2, wbool({"lt": c < 0, "le": c <= 0, "gt": c > 0, "ge": c >= 0}[op])))
+            return outs
         la, lb = _seq_values(i, st, a[0]), _seq_values(i, st, a[1])
         if all(isinstance(v, W) and v.val is not None for v in la + lb):
             ka, kb = [v.val for v in la], [v.val for v in lb]
@@ -3752,6 +3767,99 @@ TABLE.update({
     "<std::cell::Ref<'_, T> as std::ops::Deref>::deref": ref_guard_deref,
     "<std::cell::RefMut<'_, T> as std::ops::Deref>::deref": ref_guard_deref,
     "<std::cell::RefMut<'_, T> as std::ops::DerefMut>::deref_mut": ref_guard_deref,
+})
+
+
+def rng_fill_bytes(i, fr, st, pc, a, t, fn, r):
+    """RngCore::fill_bytes(&mut [u8]): one fresh 8-bit draw per byte"""
+    src = i.read_ptr(st, a[0]) if isinstance(a[0], Ptr) else a[0]
+    if not (isinstance(src, Opaque) and src.kind == "thread_rng"):
+        raise Undecided("fill_bytes from %r" % (src,))
+    dest = a[1]
+    if isinstance(dest, Ptr) and dest.sl is None:
+        inner = i.read_ptr(st, dest)
+        if isinstance(inner, Ptr):
+            dest = inner
+        elif isinstance(inner, Arr):
+            dest = Ptr(dest.cell, dest.path, (0, len(inner.elems)), "ref")
+    new = []
+    for e in i.slice_elems(st, dest):
+        k = i.rng_calls
+        i.rng_calls += 1
+        new.append(W(8, bits=[B.atom("rng%d[%d]" % (k, b)) for b in range(8)]))
+    i.write_slice(st, dest, new)
+    return _ret(i, st, pc, UNIT)
+
+
+def int_from_bytes(i, fr, st, pc, a, t, fn, r):
+    """uN::from_le_bytes / from_be_bytes / from_ne_bytes([u8; N/8]) (little endian target)"""
+    arr = a[0]
+    if isinstance(arr, Ptr):
+        arr = i.read_ptr(st, arr)
+    if not isinstance(arr, Arr):
+        raise Undecided("from_bytes of %r" % (arr,))
+    elems = list(arr.elems)
+    if fn["name"] == "from_be_bytes":
+        elems = elems[::-1]
+    bits = []
+    for e in elems:
+        if not isinstance(e, W):
+            raise Undecided("from_bytes of non-bytes")
+        bits += e.all_bits()
+    w = len(bits)
+    if all(b is not None and not b[0] for b in bits):
+        return _ret(i, st, pc, wconst(w, sum((b[1] & 1) << k for k, b in enumerate(bits))))
+    return _ret(i, st, pc, W(w, bits=bits))
+
+
+def int_to_bytes(i, fr, st, pc, a, t, fn, r):
+    x = a[0]
+    if not isinstance(x, W):
+        raise Undecided("to_bytes of %r" % (x,))
+    bits = x.all_bits()
+    bs = [W(8, bits=bits[k:k + 8]) if x.val is None else wconst(8, (x.val >> k) & 255) for k in range(0, x.width, 8)]
+    if fn["name"] == "to_be_bytes":
+        bs = bs[::-1]
+    return _ret(i, st, pc, Arr(bs))
+
+
+TABLE.update({
+    "rand::RngCore::fill_bytes": rng_fill_bytes,
+    "<rand::prelude::ThreadRng as rand::RngCore>::fill_bytes": rng_fill_bytes,
+})
+for _w in (16, 32, 64, 128):
+    for _nm in ("from_le_bytes", "from_be_bytes", "from_ne_bytes"):
+        TABLE["core::num::<impl u%d>::%s" % (_w, _nm)] = int_from_bytes
+    for _nm in ("to_le_bytes", "to_be_bytes", "to_ne_bytes"):
+        TABLE["core::num::<impl u%d>::%s" % (_w, _nm)] = int_to_bytes
+
+
+def array_index_range(i, fr, st, pc, a, t, fn, r):
+    """Index / IndexMut on [T; N] with an integer or a range: the array viewed as a slice"""
+    p = a[0]
+    if isinstance(p, Ptr) and p.sl is None:
+        tgt = i.read_ptr(st, p)
+        if isinstance(tgt, Arr):
+            p = Ptr(p.cell, p.path, (0, len(tgt.elems)), "ref")
+    return index_mut_range(i, fr, st, pc, [p, a[1]], t, fn, r)
+
+
+def slice_swap_with_slice(i, fr, st, pc, a, t, fn, r):
+    pa, pb = a
+    ea, eb = list(i.slice_elems(st, pa)), list(i.slice_elems(st, pb))
+    if len(ea) != len(eb):
+        return i.panic(st, pc, "destination and source slices have different lengths", fr, t)
+    va = [i.read_ptr(st, e) if isinstance(e, Ptr) and e.sl is None else e for e in ea]
+    vb = [i.read_ptr(st, e) if isinstance(e, Ptr) and e.sl is None else e for e in eb]
+    i.write_slice(st, pa, vb)
+    i.write_slice(st, pb, va)
+    return _ret(i, st, pc, UNIT)
+
+
+TABLE.update({
+    "std::array::<impl std::ops::IndexMut<I> for [T; N]>::index_mut": array_index_range,
+    "std::array::<impl std::ops::Index<I> for [T; N]>::index": array_index_range,
+    "core::slice::<impl [T]>::swap_with_slice": slice_swap_with_slice,
 })
 
 
